@@ -63,6 +63,7 @@ func prepare(caseID int, sub string, pcfg map[string]any, ccfg *plugin.ClientCon
 		pcfg["ctl"] = l.Ctl
 	}
 	pcfg["marker"] = l.Marker
+	pcfg["tmpDir"] = l.Dir
 	pcfg["startedFile"] = l.PidFile
 	cf := filepath.Join(l.Dir, "cfg.json")
 	b, _ := json.Marshal(pcfg)
